@@ -927,24 +927,14 @@ theorem maskPart_name (u : Bool) (byName : Table) {n : Nat} (f : CleanFacts n) :
 theorem toU32_nat {x : Nat} (h : x < 2 ^ 32) : toU32 (x : Int) = x := by
   unfold toU32; omega
 
-/-- an unnamed bit is read back from its hexadecimal form: every bit by the XML/JSON readers, every
-    bit but the sign bit by `maskUnmarshalText`. -/
-theorem maskPart_hex (u : Bool) (byName : Table) {i : Nat} (hi : i < 32) (h31 : u = true → i < 31) :
+/-- an unnamed bit is read back from its hexadecimal form by every reader. -/
+theorem maskPart_hex (u : Bool) (byName : Table) {i : Nat} (hi : i < 32) :
     maskPart u byName (hex0x 8 (2 ^ i)) = some (2 ^ i) := by
   have h32 : 2 ^ i < 2 ^ 32 := Nat.pow_lt_pow_right (by decide) hi
-  have h16 : 2 ^ i < 16 ^ 8 := by have : (16 : Nat) ^ 8 = 2 ^ 32 := by decide
-                                  omega
   have hb : hexBody u (hex0x 8 (2 ^ i)) = some (fmtHex 8 (2 ^ i)) := by simp [hex0x, hexBody]
   unfold maskPart
   rw [hb]
-  cases u with
-  | false => simp only [Bool.false_eq_true, if_false]; exact parseUint_hex8 h32
-  | true =>
-    have hlt : 2 ^ i < 2 ^ 31 := Nat.pow_lt_pow_right (by decide) (h31 rfl)
-    simp only [if_true]
-    rw [fmtHex_of_lt h16]
-    simp only [parseInt_hexFixed (by decide : 0 < 8) h16 hlt]
-    rw [toU32_nat h32]
+  exact parseUint_hex8 h32
 
 theorem flagsOk_spec (byName : Table) : ∀ (names : List Nat) (k : Nat), flagsOk byName k names = true →
     ∀ j, j < names.length → names.getD j emptyName ≠ emptyName →
@@ -1062,7 +1052,7 @@ where
 
 /-- reading the parts of the bits `i … i+n-1` of `v` on top of the lower bits. -/
 theorem maskFold_parts {names : List Nat} {byName : Table} (ok : MaskOk names byName) (u : Bool)
-    {v : Nat} (h31 : u = true → v < 2 ^ 31) : ∀ (n i acc : Nat), i + n ≤ 32 → acc < 2 ^ i →
+    {v : Nat} : ∀ (n i acc : Nat), i + n ≤ 32 → acc < 2 ^ i →
     maskFold u byName (maskParts names v n i) acc = some (acc + v / 2 ^ i % 2 ^ n * 2 ^ i) := by
   intro n
   induction n with
@@ -1095,14 +1085,7 @@ theorem maskFold_parts {names : List Nat} {byName : Table} (ok : MaskOk names by
         split
         · rename_i hlt
           rw [maskPart_name u byName (ok.clean i hlt), ok.flags i hlt]
-        · have hge := bitSet_ge hb
-          refine maskPart_hex u byName (by omega) ?_
-          intro hu
-          have hv := h31 hu
-          apply Classical.byContradiction
-          intro hn
-          have : 2 ^ 31 ≤ 2 ^ i := Nat.pow_le_pow_right (by decide) (by omega)
-          omega
+        · exact maskPart_hex u byName (by omega)
       simp only [hw, if_true, maskFold, hpart]
       rw [lor_pow hacc, ih (i + 1) (acc + 2 ^ i) (by omega) (by omega), hbit]
       congr 1
@@ -1110,14 +1093,14 @@ theorem maskFold_parts {names : List Nat} {byName : Table} (ok : MaskOk names by
 
 /-- the fold over all 32 positions recovers `v`. -/
 theorem maskFold_all {names : List Nat} {byName : Table} (ok : MaskOk names byName) (u : Bool)
-    {v : Nat} (hv : v < 2 ^ 32) (h31 : u = true → v < 2 ^ 31) :
+    {v : Nat} (hv : v < 2 ^ 32) :
     maskFold u byName (maskParts names v 32 0) 0 = some v := by
-  rw [maskFold_parts ok u h31 32 0 0 (by decide) (by decide)]
+  rw [maskFold_parts ok u 32 0 0 (by decide) (by decide)]
   have : v % 2 ^ 32 = v := Nat.mod_eq_of_lt hv
   simp [this]
 
 /-! ## bit masks: the three round trips
-    XML and JSON: EVERY 32-bit value; `MarshalText`/`UnmarshalText`: every value without bit 31. -/
+    every 32-bit value, in the three forms. -/
 
 theorem maskXml_roundtrip {names : List Nat} {byName : Table} (ok : MaskOk names byName)
     {v : Nat} (hv : v < 2 ^ 32) :
@@ -1125,13 +1108,13 @@ theorem maskXml_roundtrip {names : List Nat} {byName : Table} (ok : MaskOk names
   have ht := maskParts_toks ok v 32 0 (by decide)
   unfold maskFromTextXml
   rw [maskToText_eq, fields_joinSep _ ht, map_trim_toks ht]
-  exact maskFold_all ok false hv (by simp)
+  exact maskFold_all ok false hv
 
 theorem maskJson_roundtrip {names : List Nat} {byName : Table} (ok : MaskOk names byName)
     {v : Nat} (hv : v < 2 ^ 32) :
     maskFromTextJson byName (maskToText names [124] v) = some v := by
   have ht := maskParts_toks ok v 32 0 (by decide)
-  have hall := maskFold_all ok false hv (by simp)
+  have hall := maskFold_all ok false hv
   unfold maskFromTextJson
   rw [maskToText_eq]
   cases hp : maskParts names v 32 0 with
@@ -1145,10 +1128,10 @@ theorem maskJson_roundtrip {names : List Nat} {byName : Table} (ok : MaskOk name
     exact hall
 
 theorem maskUnmarshal_roundtrip {names : List Nat} {byName : Table} (ok : MaskOk names byName)
-    {v : Nat} (hv : v < 2 ^ 31) :
+    {v : Nat} (hv : v < 2 ^ 32) :
     maskFromTextUnmarshal byName (maskToText names [32, 124, 32] v) = some v := by
   have ht := maskParts_toks ok v 32 0 (by decide)
-  have hall := maskFold_all ok true (by omega) (fun _ => hv)
+  have hall := maskFold_all ok true hv
   unfold maskFromTextUnmarshal
   rw [maskToText_eq]
   cases hp : maskParts names v 32 0 with
